@@ -116,6 +116,7 @@ pub fn drive(name: &str, out: &str, args: &[String]) {
     let seed: u64 = arg(args, 0, 1);
     match name {
         "panic" => panic_driver(out, seed, arg(args, 1, 200), arg(args, 2, 60)),
+        "ledger" => ledger_driver(out, seed, arg(args, 1, 50), arg(args, 2, 100)),
         _ => {
             eprintln!("unknown driver {}", name);
             std::process::exit(2);
@@ -177,6 +178,76 @@ fn panic_driver(out: &str, seed: u64, n: u64, len: u64) {
                 json!({"op":"deposit","acct":format!("A.{}", g),"bank":format!("PB.{}", g),"amount":1})
             } else {
                 json!({"op":"panic_pause","signer":"U1"})
+            };
+            r.act(a);
+        }
+    }
+    r.finish();
+}
+
+
+fn pick<'a, T>(rng: &mut StdRng, v: &'a [T]) -> &'a T {
+    &v[rng.gen_range(0..v.len())]
+}
+
+/// Random histories of user / keeper / admin instructions with clock advances and price moves.
+fn ledger_driver(out: &str, seed: u64, n: u64, len: u64) {
+    let mut rng = StdRng::seed_from_u64(seed);
+    let mut r = Recorder::new(&format!("{}/ledger.trace", out), load_setup("ledger"));
+    let accts = ["A1", "A2", "A3", "A4"];
+    let banks = ["B1", "B2", "B3"];
+    let amounts: [u64; 12] = [0, 1, 2, 7, 999, 1_000_003, 50_000_000, 1_000_000_000, 33_333_333_333, 2_500_000_000_000, 77, 123_456_789];
+    for k in 0..n {
+        r.begin(&[]);
+        // seed liquidity so that borrowing is possible in most scenarios
+        if k % 4 != 3 {
+            r.act(json!({"op":"deposit","acct":"A4","bank":"B1","amount": 5_000_000_000u64}));
+            r.act(json!({"op":"deposit","acct":"A4","bank":"B2","amount": 2_000_000_000_000u64}));
+            r.act(json!({"op":"deposit","acct":"A4","bank":"B3","amount": 100_000_000_000u64}));
+        }
+        for _ in 0..len {
+            let c = rng.gen_range(0..100);
+            let acct = *pick(&mut rng, &accts);
+            let bank = *pick(&mut rng, &banks);
+            let amount = *pick(&mut rng, &amounts);
+            let a = if c < 18 {
+                json!({"op":"deposit","acct":acct,"bank":bank,"amount":amount})
+            } else if c < 32 {
+                let all = rng.gen_bool(0.25);
+                json!({"op":"withdraw","acct":acct,"bank":bank,"amount":amount,"all":all})
+            } else if c < 48 {
+                json!({"op":"borrow","acct":acct,"bank":bank,"amount":amount})
+            } else if c < 60 {
+                let all = rng.gen_bool(0.3);
+                json!({"op":"repay","acct":acct,"bank":bank,"amount":amount,"all":all})
+            } else if c < 70 {
+                let dt = *pick(&mut rng, &[1i64, 1, 60, 3600, 86400, 2_592_000, 31_536_000]);
+                json!({"op":"tick","dt":dt})
+            } else if c < 75 {
+                json!({"op":"accrue","bank":bank})
+            } else if c < 80 {
+                json!({"op":"collect_fees","bank":bank})
+            } else if c < 86 {
+                // price move
+                let (o, base) = *pick(&mut rng, &[("O1", 1_000_000i64), ("O2", 20_000_000i64)]);
+                let f = *pick(&mut rng, &[0.3f64, 0.6, 0.9, 1.0, 1.1, 1.8, 3.0]);
+                let p = (base as f64 * f) as i64;
+                json!({"op":"set_oracle","oracle":o,"price":p,"conf":p/1000})
+            } else if c < 92 {
+                let liqee = *pick(&mut rng, &accts);
+                let ab = *pick(&mut rng, &banks);
+                let lb = *pick(&mut rng, &banks);
+                json!({"op":"liquidate","liquidator":acct,"liquidatee":liqee,"asset_bank":ab,"liab_bank":lb,"amount":amount})
+            } else if c < 95 {
+                json!({"op":"close_balance","acct":acct,"bank":bank})
+            } else if c < 97 {
+                json!({"op":"bankruptcy","acct":acct,"bank":bank})
+            } else if c < 98 {
+                json!({"op":"withdraw_fees","bank":bank,"amount":amount % 1000})
+            } else if c < 99 {
+                json!({"op":"withdraw_insurance","bank":bank,"amount":amount % 1000})
+            } else {
+                json!({"op":"pulse_health","acct":acct})
             };
             r.act(a);
         }
